@@ -1,10 +1,13 @@
-"""C13 - PSF models interpolate their data faithfully (index arithmetic part).
+"""C13 - PSF models: index arithmetic of the image-based models and the
+analytic models with axiomatised transcendental functions (c13_analytic.py).
 
 Addressable by SMT (DESIGN 3/C13): ImagePSF's oversampled-index transform and
 fill region, and GriddedPSFModel's bounding-point lookup, bilinear weights and
 model blending, with the cubic splines replaced by recording / uninterpreted
-stubs.  The normalisation / non-negativity clauses (erf, exp, Bessel) are not
-addressable and are NOT claimed.
+stubs.  The normalisation / non-negativity / consistency clauses of the
+Gaussian and Moffat models are decided with erf, exp, cos/sin and pow replaced
+by axiomatised stubs (see c13_analytic.py); the Airy disk (Bessel function) is
+only compared with the textbook formula on a solver-enumerated lattice.
 """
 import copy
 import warnings
@@ -22,7 +25,14 @@ META = dict(
                'photutils.psf.gridded_models:GriddedPSFModel._calc_bilinear_weights',
                'photutils.psf.gridded_models:GriddedPSFModel._calc_model_values',
                'photutils.psf.gridded_models:GriddedPSFModel._calc_interpolator',
-               'photutils.psf.gridded_models:GriddedPSFModel.evaluate'],
+               'photutils.psf.gridded_models:GriddedPSFModel.evaluate',
+               'photutils.psf.functional_models:GaussianPSF.evaluate',
+               'photutils.psf.functional_models:CircularGaussianPSF.evaluate',
+               'photutils.psf.functional_models:GaussianPRF.evaluate',
+               'photutils.psf.functional_models:CircularGaussianPRF.evaluate',
+               'photutils.psf.functional_models:CircularGaussianSigmaPRF.evaluate',
+               'photutils.psf.functional_models:MoffatPSF.evaluate',
+               'photutils.psf.functional_models:AiryDiskPSF.evaluate'],
     bounds=('ImagePSF: data 5x7 and 6x6, oversampling in {1,2,3,(2,4)}, '
             'origin None or (3,5)/(1.5,2.5), symbolic real x_0, y_0, flux and '
             'fill_value, symbolic integer sample indices in [-2, n+1]; '
@@ -30,16 +40,31 @@ META = dict(
             'shuffled grid_xypos, symbolic real (x_0, y_0) anywhere (inside, '
             'on grid lines, outside), splines as uninterpreted values; '
             'evaluation/copy histories of length <=3 on a concrete model; '
-            'concrete spline check of ImagePSF at interior sample points'),
+            'concrete spline check of ImagePSF at interior sample points; '
+            'analytic models: symbolic real x_0, y_0, flux, widths > 0, '
+            'rotation angle and evaluation point; PRF pixel blocks '
+            '[-N..N]^2 with N = 3 (quick) / 6 (thorough), GaussianPRF at '
+            'theta = 0 only; Airy disk on a 5x5 offset lattice x 3 radii x 3 '
+            'fluxes x 3 centres'),
     assumptions=['floats as reals: the float round trip at the outermost '
                  'sample (DESIGN section 1) is outside the claim',
+                 'transcendental functions are axiomatised: an unsat answer '
+                 'holds for the real functions, a sat answer is reported only '
+                 'if the concrete replay with scipy/numpy reproduces it',
                  'RectBivariateSpline replaced by a recording stub '
                  '(ImagePSF) / uninterpreted per-ePSF values (gridded)'],
-    stubs=['ImagePSF.interpolator recording stub',
+    stubs=['scipy.special.erf, numpy exp / cos / sin / power with symbolic '
+           'exponent -> fresh value per distinct argument + instances of '
+           'congruence, strict monotonicity, oddness, range, value at 0, '
+           'cos^2+sin^2=1 and double-angle formulas (vf/ufmath.py)',
+           'ImagePSF.interpolator recording stub',
            'GriddedPSFModel._calc_interpolator -> uninterpreted value',
            'numpy facade'],
-    outside=['normalisation, non-negativity, Gaussian/Moffat/Airy '
-             'consistency of the analytic models (erf, exp, Bessel)',
+    outside=['the limits erf(+-inf) = +-1, the Gaussian and Moffat integral '
+             'formulas (trusted mathematics linking the proved algebraic '
+             'statements to "integrates to flux")',
+             'GaussianPRF at non-zero rotation; the Airy disk away from the '
+             'lattice (Bessel function)',
              'spline values between sample points'],
     min_obligations=40,
 )
@@ -379,6 +404,9 @@ def _run_gridc(case):
 
 
 def run_case(case):
+    if case['kind'] == 'analytic':
+        from . import c13_analytic
+        return c13_analytic.RUN[case['sub']](case)
     return dict(image=_run_image, imgc=_run_image_concrete, grid=_run_grid,
                 hist=_run_hist, gridc=_run_gridc)[case['kind']](case)
 
@@ -400,12 +428,18 @@ def cases(tier, seed):
     cs.append(dict(kind='gridc', name='gridded-real-splines'))
     cs.append(dict(kind='hist', name='gridded-history',
                    len=2 if tier == 'quick' else 3))
+    from . import c13_analytic
+    cs.extend(c13_analytic.cases(tier))
     return cs
 
 
 def replay(f):
     p = f['params']
     w = f.get('witness') or {}
+    if p['kind'] == 'analytic':
+        from . import c13_analytic
+        msg = c13_analytic.concrete(p, w)
+        return msg is not None, str(msg)
     if p['kind'] == 'imgc':
         ov = tuple(p['ov']) if isinstance(p['ov'], list) else p['ov']
         org = tuple(p['origin']) if isinstance(p['origin'], list) else \
